@@ -276,16 +276,18 @@ class Evaluator:
         raise ValueError(test)
 
     # -- predicates ------------------------------------------------------------
-    def pred(self, p, n, pos, size, info):
+    def pred(self, p, n, pos, size, info, top=True):
+        """top: the predicate expression itself (a number there means position() = number); below and/or/not
+        a number is converted with boolean() (XPath 1.0 3.4, 4.3)."""
         k = p[0]
         if k == 'num':
-            return pos == p[1]
+            return pos == p[1] if top else p[1] != 0
         if k == 'pos':
             return _CMP[p[1]](pos, p[2])
         if k == 'last':
-            return pos == size
+            return pos == size if top else size != 0
         if k == 'lastminus':
-            return pos == size - p[1]
+            return pos == size - p[1] if top else size - p[1] != 0
         if k == 'exists':
             return bool(self.expr(p[1], n, info))
         if k == 'cmp':
@@ -294,22 +296,24 @@ class Evaluator:
         if k == 'count':
             return _CMP[p[2]](len(self.expr(p[1], n, info)), p[3])
         if k == 'not':
-            return not self.pred(p[1], n, pos, size, info)
+            return not self.pred(p[1], n, pos, size, info, False)
         if k == 'and':
-            return self.pred(p[1], n, pos, size, info) and self.pred(p[2], n, pos, size, info)
+            return self.pred(p[1], n, pos, size, info, False) and self.pred(p[2], n, pos, size, info, False)
         if k == 'or':
-            return self.pred(p[1], n, pos, size, info) or self.pred(p[2], n, pos, size, info)
+            return self.pred(p[1], n, pos, size, info, False) or self.pred(p[2], n, pos, size, info, False)
         raise ValueError(p)
 
     @staticmethod
-    def is_positional(p):
+    def is_positional(p, top=True):
         k = p[0]
-        if k in ('num', 'pos', 'last', 'lastminus'):
+        if k == 'pos':
             return True
+        if k in ('num', 'last', 'lastminus'):
+            return top or k != 'num'
         if k == 'not':
-            return Evaluator.is_positional(p[1])
+            return Evaluator.is_positional(p[1], False)
         if k in ('and', 'or'):
-            return Evaluator.is_positional(p[1]) or Evaluator.is_positional(p[2])
+            return Evaluator.is_positional(p[1], False) or Evaluator.is_positional(p[2], False)
         return False
 
     def filter(self, cands, preds, info):
